@@ -323,7 +323,7 @@ func init() {
 // ---- C02: liveness at every quiescent state ----
 
 const (
-	cPhase = 8 + iota
+	cPhase     = 8 + iota
 	cWRet      // the cancellable writer's Lock returned
 	cCancelled // cancel() was (about to be) called
 	cWWasParked
